@@ -27,6 +27,10 @@ pub enum HostV {
     V4(u32),
     V6(u128),
     Svc(u16),
+    /// interface part of a hop predicate (policy language): none, `#a`, `#a,b`
+    IfAny,
+    If1(u16),
+    If2(u16, u16),
 }
 
 #[derive(Clone, Debug, PartialEq, Eq, Default)]
@@ -55,6 +59,9 @@ impl Val {
             Some(HostV::V4(a)) => ("v4", groups16(*a as u128, 2)),
             Some(HostV::V6(a)) => ("v6", groups16(*a, 8)),
             Some(HostV::Svc(a)) => ("svc", vec![*a as u64]),
+            Some(HostV::IfAny) => ("ifany", vec![]),
+            Some(HostV::If1(a)) => ("if1", vec![*a as u64]),
+            Some(HostV::If2(a, b)) => ("if2", vec![*a as u64, *b as u64]),
         };
         json!({
             "isd": self.isd.map(|x| vec![x as u64]).unwrap_or_default(),
@@ -118,6 +125,7 @@ pub fn lex(s: &str) -> Vec<Tok> {
             '-' => "ds",
             ':' => "cl",
             ';' => "sc",
+            '#' => "hs",
             c if c.is_whitespace() => "ws",
             _ => "",
         };
@@ -277,6 +285,7 @@ impl Lexed {
                 "ds" => s.push('-'),
                 "cl" => s.push(':'),
                 "sc" => s.push(';'),
+                "hs" => s.push('#'),
                 "ws" => s.push('_'),
                 _ => {
                     let f = f.as_ref().unwrap();
@@ -335,6 +344,9 @@ pub fn eval_term(term: &Value, lx: &Lexed) -> Result<Val, String> {
     match hk {
         "v4" => v.host = Some(HostV::V4(fact(hp[0])?.v4.ok_or("host leaf is not IPv4")?)),
         "svc" => v.host = Some(HostV::Svc(fact(hp[0])?.svc.ok_or("host leaf is not a service")?)),
+        "ifany" => v.host = Some(HostV::IfAny),
+        "if1" => v.host = Some(HostV::If1(fact(hp[0])?.d16.ok_or("interface leaf is not a u16")?)),
+        "if2" => v.host = Some(HostV::If2(fact(hp[0])?.d16.ok_or("interface leaf is not a u16")?, fact(hp[1])?.d16.ok_or("interface leaf is not a u16")?)),
         "v6" => {
             let r = lx.v6.iter().find(|(i, j, _)| *i == hp[0] && *j == hp[1]).ok_or("host range is not IPv6 for std")?;
             v.host = Some(HostV::V6(r.2));
@@ -363,6 +375,7 @@ pub fn literals(class: &str) -> &'static [&'static str] {
         "DS" => &["-"],
         "CL" => &[":"],
         "SC" => &[";"],
+        "HS" => &["#"],
         "WS" => &[" ", "\t", "\u{3000}", "\n", "\u{a0}"],
         "N1" => &["0", "9999", "110", "1", "42"],
         "NP" => &["+7", "00001", "+0", "00042"],
@@ -420,6 +433,7 @@ fn class_kind(class: &str) -> &'static str {
         "DS" => "ds",
         "CL" => "cl",
         "SC" => "sc",
+        "HS" => "hs",
         "WS" => "ws",
         _ => "a",
     }
@@ -605,7 +619,7 @@ pub fn replay(t: &dyn Target, cases_path: &str, out_path: &str, trace_path: &str
 // record: displayed forms, single-character edits, short strings -> trace lines
 // ------------------------------------------------------------------------------------------
 pub const EDIT_CHARS: &[char] = &[
-    '[', ']', ',', '-', ':', ';', ' ', '0', '1', '9', 'a', 'f', 'F', 'g', 'x', '.', '_', '+', '\u{e9}', '\u{1f600}', '\u{3000}', 'C', 'S', 'M', 'A', '=', '<', '\t', 'm', 's',
+    '[', ']', ',', '-', ':', ';', '#', ' ', '0', '1', '9', 'a', 'f', 'F', 'g', 'x', '.', '_', '+', '\u{e9}', '\u{1f600}', '\u{3000}', 'C', 'S', 'M', 'A', '=', '<', '\t', 'm', 's',
 ];
 
 fn single_edits(s: &str) -> Vec<String> {
@@ -720,7 +734,8 @@ pub fn record(t0: &dyn Target, trace_path: &str, out_path: &str) {
             shorts.push([a, b].iter().collect());
         }
     }
-    for _ in 0..(if thorough { 20_000 } else { 1_500 }) {
+    let nshort: usize = std::env::var("VERIF_SHORTN").ok().and_then(|x| x.parse().ok()).unwrap_or(if thorough { 20_000 } else { 1_500 });
+    for _ in 0..nshort {
         let n = 3 + rng.below(2) as usize;
         shorts.push((0..n).map(|_| *rng.pick(EDIT_CHARS)).collect());
     }
@@ -770,8 +785,30 @@ pub fn record(t0: &dyn Target, trace_path: &str, out_path: &str) {
     std::fs::write(out_path, serde_json::to_string_pretty(&out).unwrap()).expect("write result");
 }
 
-pub fn main_with(t: &dyn Target) {
+/// VERIF_TYPES=T1,T2,...: restrict a harness binary to some target types (one binary serves two checks)
+struct TypeFilter<'a>(&'a dyn Target, Vec<String>);
+impl Target for TypeFilter<'_> {
+    fn types(&self) -> Vec<&'static str> {
+        self.0.types().into_iter().filter(|t| self.1.iter().any(|x| x == t)).collect()
+    }
+    fn parse(&self, ty: &str, s: &str) -> Vec<(&'static str, Out)> {
+        self.0.parse(ty, s)
+    }
+    fn shown(&self, ty: &str, rng: &mut Rng, nrand: usize) -> Vec<(String, String, Val)> {
+        self.0.shown(ty, rng, nrand)
+    }
+}
+
+pub fn main_with(t0: &dyn Target) {
     vh_core::quiet_panics();
+    let filtered;
+    let t: &dyn Target = match std::env::var("VERIF_TYPES") {
+        Ok(l) if !l.is_empty() => {
+            filtered = TypeFilter(t0, l.split(',').map(|x| x.trim().to_string()).collect());
+            &filtered
+        }
+        _ => t0,
+    };
     let args: Vec<String> = std::env::args().collect();
     match args.get(1).map(|s| s.as_str()) {
         Some("replay") if args.len() >= 5 => replay(t, &args[2], &args[3], &args[4]),
